@@ -67,3 +67,8 @@ check("C10", "exploration",
       "runtime monitors inside f (call count per key, fresh result object published in the monitor, 'completed' flag as f's last action) checked after every Do/Get; rendezvous runs turn a blocking Get into a deadlock that the runtime detects; Go race detector on the unmodified double-checked locking",
       "Hundreds of thousands of Do/Get calls by 2-32 goroutines on 1-6 keys (string / pointer / int keys, fast / slow / nested f), GOMAXPROCS 1/2/16, non-race and race builds. Evidence: Do calls that arrived while f for their key was in progress, completed rendezvous (a Get returned while f was inside).",
       "Interleavings are sampled, not enumerated. The race detector reports only unsynchronised accesses that happened in the observed executions.")
+
+check("C02", "exploration",
+      "runtime monitor: reference quoter (law: received words = spelled words), reference tokenizer/expander and environment model, compared with what a custom command (args, Getenv) and a real child process (argv, environment) observe; semantic check of ${V@R} against neighbours of the value",
+      "Thousands of generated lines: words over all bytes except newline spelled in random equivalent quotings and expansion spellings, env assignment histories with re-assignments and hostile values, raw token soups against the reference tokenizer; executed by the real RunT through a recording T; the helper program is installed by the real testscript.Main.",
+      "Trusted: the reference tokenizer in checks/c02 (written from the statement) and Go's regexp package. Unquoted CR may or may not split (both accepted); undocumented $ forms are not generated; @R only for valid UTF-8 values.")
